@@ -28,7 +28,9 @@ func draw(t *rapid.T) *pbt.Case {
 	if pbt.Thorough() {
 		maxB = 12
 	}
-	g := gen.Default(gen.Regular())
+	// (wrapfgosyntax prints the Go type of its error argument into the
+	// message, so the hidden error's type is visible by design: not used here)
+	g := gen.Default(gen.Regular()).Without("wrapfgosyntax")
 	hg := g.Boost(4, payloadKinds...)
 	// Construct the feature: a hidden sub-tree H that carries
 	// annotations and sentinels, hidden by a drawn mechanism, below
@@ -78,7 +80,7 @@ func collectHidden(s *gen.Spec, out *[]hidden) {
 	}
 	for _, x := range s.X {
 		switch s.K {
-		case "secondary", "combine", "wrapferr":
+		case "secondary", "combine", "wrapferr", "newfwerr":
 			*out = append(*out, hidden{x, "secondary"})
 		case "mark":
 			*out = append(*out, hidden{x, "mark"})
@@ -103,7 +105,7 @@ func replaceHidden(s *gen.Spec, alsoMark bool) *gen.Spec {
 	c.X = nil
 	for _, x := range s.X {
 		switch {
-		case s.K == "secondary" || s.K == "combine" || s.K == "wrapferr":
+		case s.K == "secondary" || s.K == "combine" || s.K == "wrapferr" || s.K == "newfwerr":
 			c.X = append(c.X, plain(x))
 		case s.K == "mark":
 			c.X = append(c.X, x) // the mark itself is what Mark is for
@@ -184,6 +186,10 @@ func check(c *pbt.Case, r *pbt.R) {
 			want = n.S[0]
 		case "handleddomainmsg":
 			want = n.S[1]
+		case "handledmsgf", "handledsafemsg":
+			want = "lit " + n.S[0] + " u=" + n.S[1] + " s=" + n.S[2]
+		case "handledmsgf0":
+			want = "lit " + n.S[0]
 		case "assertwrap":
 			want = "lit " + n.S[0] + " u=" + n.S[1] + " s=" + n.S[2] + ": " + hid
 		}
